@@ -9,9 +9,6 @@ open CR.Xsd CR.XmlNum CR.XmlW
 
 /-! ### planning problems -/
 
-def ProblemOk (q : ProblemD) : Prop :=
-  1 ≤ q.id ∧ PlanningInitialStateOk q.init ∧ q.goals ≠ [] ∧ ∀ g ∈ q.goals, GoalStateOk g
-
 theorem it_problem : IdType "planningProblem" := by unfold IdType; decide
 
 theorem valid_problem (p : Nat) {q : ProblemD} (h : ProblemOk q) : validNode schema "planningProblem" (problemNode p q) = true := by
@@ -31,8 +28,6 @@ theorem valid_problem (p : Nat) {q : ProblemD} (h : ProblemOk q) : validNode sch
   simpa [problemNode] using this
 
 /-! ### location, environment, tags -/
-
-def GeoOk (g : GeoD) : Prop := Fin g.x ∧ Fin g.y ∧ Fin g.rot ∧ PosNum g.scale
 
 theorem pt_addTr : PlainType "additionalTransformation" := by unfold PlainType; decide
 theorem pt_geoTr : PlainType "geoTransformation" := by unfold PlainType; decide
@@ -54,10 +49,6 @@ theorem valid_geo {g : GeoD} (h : GeoOk g) : validNode schema "geoTransformation
   rw [geoNode, el_valid pt_geoTr (ts := ["geoReference", "additionalTransformation"]) (by simpa [leaf, el, Xml.name] using hm2)]
   simp only [validKids, valid_geoReference, hadd, Bool.and_self]
 
-def EnvOk (e : EnvD) : Prop :=
-  e.hours < 24 ∧ e.minutes < 60 ∧ acceptsV "timeOfDay" e.timeOfDay = true ∧ acceptsV "weather" e.weather = true ∧
-  acceptsV "underground" e.underground = true
-
 set_option maxRecDepth 100000 in
 theorem timeText_ok : ∀ h, h < 24 → ∀ m, m < 60 → isTime (timeText h m) = true := by decide
 
@@ -70,9 +61,6 @@ theorem valid_env {e : EnvD} (h : EnvOk e) : validNode schema "environment" (env
     validNode_simple stime "time" (by simp [Simple.accepts, timeText_ok _ h.1 _ h.2.1])
   rw [envNode, el_valid pt_env (ts := ["xs:time", "timeOfDay", "weather", "underground"]) (by simpa [leaf, Xml.name] using hm)]
   simp only [validKids, ht, leaf_enum _ _ _ h.2.2.1, leaf_enum _ _ _ h.2.2.2.1, leaf_enum _ _ _ h.2.2.2.2, Bool.and_self]
-
-def LocationOk (l : LocationD) : Prop :=
-  Fin l.lat ∧ Fin l.lon ∧ (∀ g, l.geo = some g → GeoOk g) ∧ (∀ e, l.env = some e → EnvOk e)
 
 theorem pt_location : PlainType "location" := by unfold PlainType; decide
 
@@ -100,9 +88,6 @@ theorem valid_location {l : LocationD} (h : LocationOk l) : validNode schema "lo
     · cases l.env <;> exact ir_opt _ _ 1 (by simp [optEnvNodes])
   have := seq_assembly pt_location (by decide) "location" [] (by rfl) _ hf (by simp)
   simpa [locationNode, el, List.append_assoc] using this
-
-/-- a set of tags the `tag` type declares -/
-def TagsOk (tags : List String) : Prop := tags.Nodup ∧ ∀ t ∈ tags, t ∈ (stateEs "tag").map (·.name)
 
 theorem valid_tags {tags : List String} (h : TagsOk tags) : validNode schema "tag" (tagsNode tags) = true := by
   have hnames : (tags.map fun t => leaf t []).map Xml.name = tags := by
@@ -133,9 +118,6 @@ def rootDecl : List AttrP := match schema.lookup "/commonRoad" with | some (.com
 
 theorem lk_root : schema.lookup "/commonRoad" = some (.complex rootDecl false (schema.content "/commonRoad")) := by decide
 
-def HeaderOk (d : DocD) : Prop :=
-  Fin d.dt ∧ acceptsV "/commonRoad/@commonRoadVersion" d.version = true ∧ isDate d.date.toList = true
-
 theorem header_ok {d : DocD} (h : HeaderOk d) : attrsOk schema rootDecl (headerAttrs d) = true := by
   obtain ⟨hdt, hver, hdate⟩ := h
   have hd : rootDecl =
@@ -160,14 +142,6 @@ theorem header_ok {d : DocD} (h : HeaderOk d) : attrsOk schema rootDecl (headerA
     rw [h4] at hver
     simp only at hver
     simp [attrsOk, headerAttrs, s1, s2, s3, h4, hver, hstr, hdt', hdec, String.toList_ofList]
-
-/-- **schema-expressible document**: header, location, tags and every object are expressible, and there is at least one
-    lanelet and one planning problem -/
-def DocOk (d : DocD) : Prop :=
-  HeaderOk d ∧ LocationOk d.location ∧ TagsOk d.tags ∧ d.lanelets ≠ [] ∧ (∀ l ∈ d.lanelets, LaneletOk l) ∧
-  (∀ s ∈ d.signs, SignOk s) ∧ (∀ l ∈ d.lights, LightOk l) ∧ (∀ x ∈ d.intersections, IntersectionOk x) ∧
-  (∀ o ∈ d.statics, StaticOk o) ∧ (∀ o ∈ d.dynamics, DynOk o) ∧ (∀ o ∈ d.phantoms, PhantomOk o) ∧
-  (∀ o ∈ d.envs, EnvObsOk o) ∧ d.problems ≠ [] ∧ (∀ q ∈ d.problems, ProblemOk q)
 
 /-- the whole element tree is valid against the root type — every element, attribute and leaf -/
 theorem valid_docNode {d : DocD} (h : DocOk d) : validNode schema "/commonRoad" (docNode d) = true := by
